@@ -159,25 +159,27 @@ def run(pid, tier, seed, replay=None):
           failures.append(f)
       except Exception as e:
         failures.append({'key': {'kind': 'oracle-raised', 'exc': type(e).__name__}, 'detail': traceback.format_exc()[-600:], 'case': case})
+  def classify(fs):
+    hits, unlisted = {}, []
+    for f in fs:
+      hit = None
+      for m, text in known:
+        if C.matches(m, f['key']):
+          hit = text; break
+      if hit:
+        hits.setdefault(hit, f)
+      else:
+        unlisted.append(f)
+    return hits, unlisted
   ordered = [d['case'] for d in disagreements] + cases
   run_oracle(ordered)
-  if red and not failures and not replay:
-    # something no longer checks but no failing input yet: widen the search
+  known_hits, new = classify(failures)
+  if red and not new and not replay:
+    # something no longer checks but no UNLISTED failing input yet (known findings do not count): widen the search
     extra = prop.cases(random.Random(seed * 7919 + 13), tier, count * 4)
     run_oracle(extra)
     info['widened_search_cases'] = len(extra)
-
-  # ---- classify
-  known_hits, new = {}, []
-  for f in failures:
-    hit = None
-    for m, text in known:
-      if C.matches(m, f['key']):
-        hit = text; break
-    if hit:
-      known_hits.setdefault(hit, f)
-    else:
-      new.append(f)
+    known_hits, new = classify(failures)
   for text in known_hits:
     print('KNOWN-FINDING: property=%s %s' % (pid, text))
 
